@@ -17,7 +17,7 @@ from sa.model import Repo
 from sa.norm import T
 from sa.report import Check
 
-from .common import expand_with_loops, kwarg, callee_name, depends_on, flow_of, has_fact, subexprs
+from .common import every_alt_has, expand_with_loops, kwarg, callee_name, depends_on, flow_of, has_fact, subexprs
 
 STRIDE = "snaxc/ir/tsl/stride.py"
 TSTRIDE = "snaxc/ir/tsl/tiled_stride.py"
@@ -44,6 +44,7 @@ def run(repo: Repo, chk: Check) -> None:
     from_stride(repo, chk)
     canonicalize(repo, chk)
     lccb(repo, chk)
+    dense(repo, chk)
     op_builders(repo, chk)
     subview_pointer(repo, chk)
 
@@ -354,11 +355,11 @@ def canonicalize(repo: Repo, chk: Check, rule: str = "C10.canon") -> None:
 
 
 # --------------------------------------------------------------------------- largest common contiguous block
-def lccb(repo: Repo, chk: Check) -> None:
+def lccb(repo: Repo, chk: Check, rule: str = "C10.lccb") -> None:
     f, fl = flow_of(repo, chk, TSL, "TiledStridedLayout.largest_common_contiguous_block")
     other = f.param(1)
     chk.rule(
-        "C10.lccb",
+        rule,
         "a stride joins the common contiguous block only if its step equals the running extent and the other layout has an "
         "equal stride at the same (dim, depth); the running extent becomes step * bound",
         floor=3,
@@ -369,8 +370,27 @@ def lccb(repo: Repo, chk: Check) -> None:
     for s in apps:
         a = s.node.args[0]
         ok = bool(has_fact(s, ["$a == $o.get_stride($d, $k)", "$o.get_stride($d, $k) == $a"], {"a": a, "o": other}))
-        chk.result(ok, "C10.lccb", f"{f.key}:common", s.where(), "only strides equal in both layouts are appended",
+        chk.result(ok, rule, f"{f.key}:common", s.where(), "only strides equal in both layouts are appended",
                    "a stride is appended to the common block without being equal to the other layout's stride at the same position", s.fact_texts)
+    # nothing but the block built stride by stride (or the single-element default) is ever returned
+    built = {ast.unparse(s.node.func.value) for s in apps if isinstance(s.node.func, ast.Attribute)}
+    for n_, s in enumerate([x for x in fl.stmts(ast.Return) if x.reachable and x.node.value is not None], 1):
+        v = norm.primary(s.node.value)
+        parts = v.values if isinstance(v, ast.BoolOp) and isinstance(v.op, ast.Or) else [v]
+        okp = True
+        for part in parts:
+            part = norm.primary(part)
+            if isinstance(part, ast.Name) and part.id in built:
+                continue
+            e_ = norm.primary(s.expand(part))
+            if norm.any_match(["[Stride($s, 1)]"], e_) is not None or (isinstance(part, ast.Name) and any(
+                    norm.any_match(["[Stride($s, 1)]"], norm.primary(d_)) is not None for d_ in fl.alldefs.get(part.id, []))):
+                continue
+            okp = False
+        chk.result(okp, rule, f"{f.key}:returns-built-block#{n_}", s.where(),
+                   "the returned block is the list built under the contiguity and equality conditions (or the one-element default)",
+                   f"`{ast.unparse(s.node.value)[:100]}` is returned without having been built stride by stride: strides enter the 'contiguous' block "
+                   "without `step == running extent` (two identical padded layouts then become one 1-D transfer over the gaps)")
     sel = False
     cur = None
     for n in ast.walk(f.node):
@@ -381,11 +401,40 @@ def lccb(repo: Repo, chk: Check) -> None:
                     if m is not None and isinstance(m["c"], ast.Name):
                         sel = True
                         cur = m["c"].id
-    chk.result(sel, "C10.lccb", f"{f.key}:continues-extent", f.where, "candidates are selected by step == running extent",
+    chk.result(sel, rule, f"{f.key}:continues-extent", f.where, "candidates are selected by step == running extent",
                "the next stride is no longer selected by `step == current extent`: the block is not contiguous")
     upd = [s for s in fl.stmts(ast.Assign) if s.reachable and isinstance(s.node.targets[0], ast.Name) and s.node.targets[0].id == cur and s.loops]
     ok = any(norm.any_match(["$s.step * $s.bound", "$s.bound * $s.step"], s.node.value) is not None for s in upd)
-    chk.result(ok, "C10.lccb", f"{f.key}:extent-update", upd[0].where() if upd else f.where, "running extent := step * bound of the appended stride")
+    chk.result(ok, rule, f"{f.key}:extent-update", upd[0].where() if upd else f.where, "running extent := step * bound of the appended stride")
+
+
+# --------------------------------------------------------------------------- dense = onto AND one-to-one
+def dense(repo: Repo, chk: Check) -> None:
+    chk.rule(
+        "C10.dense-injective",
+        "is_dense answers True only for layouts that do not overlap themselves: under `not self.self_overlaps()`, or by comparing the "
+        "address range with the number of INDEX TUPLES (the un-deduplicated enumeration) - a count of distinct addresses accepts "
+        "layouts that fold several elements onto one address and still leave no gap",
+        floor=1,
+    )
+    f, fl = flow_of(repo, chk, TSL, "TiledStridedLayout.is_dense")
+    rets = [s for s in fl.stmts(ast.Return) if s.reachable and s.node.value is not None and not (isinstance(s.node.value, ast.Constant) and s.node.value.value is False)]
+    if not rets:
+        raise AnalysisError(f"{f.where}: no return that can answer True")
+    for n_, s in enumerate(rets, 1):
+        key = f"{f.key}:true-return#{n_}"
+        if every_alt_has(s, ["not self.self_overlaps()"]):
+            chk.ok("C10.dense-injective", key, s.where(), "True is only answered for layouts without self-overlap")
+            continue
+        v = fl.cone(s.node.value, s, inline=0)
+        counts = [c for c in ast.walk(v) if (isinstance(c, ast.Call) and callee_name(c) == "len" and c.args) or (isinstance(c, ast.Attribute) and c.attr == "size")]
+        if not counts:
+            raise AnalysisError(f"{s.where()}: is_dense neither tests self_overlaps() nor compares against a count")
+        dedup = any(any(isinstance(x, ast.Call) and callee_name(x) in ("unique", "set", "frozenset") for x in ast.walk(c)) for c in counts)
+        chk.result(not dedup and any(norm.contains(c, T("self.all_values()")) for c in counts), "C10.dense-injective", key, s.where(),
+                   "the address range is compared with the number of index tuples",
+                   "is_dense compares the address range with the number of DISTINCT addresses and does not test self_overlaps(): a self-overlapping "
+                   "layout without gaps ([4] -> (1), [4] -> (1)) is reported dense, and constants are re-laid-out at compile time through a map that is not one-to-one")
 
 
 # --------------------------------------------------------------------------- op builders
